@@ -397,8 +397,8 @@ def registration_harness(sym):
         for i in range(n):
             pre = sym.shard.get("engines", [])
             comp, uod = ENGINES[pre[i]] if i < len(pre) else sym.choice(f"engine{i}", ENGINES)
-            secret = sym.str(f"secret{i}", 8)
-            version = sym.str(f"version{i}", 12)
+            secret = sym.str(f"secret{i}", len(AGG_SECRET) + 1)
+            version = sym.str(f"version{i}", len(__version__) + 1)
             ignore = sym.bool(f"ignore{i}")
             msg = EM.RegisterEngineMsg.model_construct(
                 computer_name=comp, uod_name=uod, uod_author_name="n", uod_author_email="e", uod_filename="f", location="l",
@@ -434,7 +434,7 @@ def registration_harness(sym):
             if sym.bool(f"disconnect{i}") and disp.connected:
                 victim = sorted(disp.connected)[0]
                 del disp.connected[victim]
-                if sym.bool(f"forget{i}"):               # handle_EngineDisconnected removes the engine data
+                if sym.shard.get("forget_always") or sym.bool(f"forget{i}"):   # handle_EngineDisconnected removes the engine data
                     agg._engine_data_map.pop(victim, None)
                 trace.append("disconnect")
         sym.note("trace", trace)
@@ -445,7 +445,7 @@ def registration_harness(sym):
 def _reg_shards(tier):
     k = range(len(ENGINES))
     if tier == "quick":
-        return [{"n": 2, "engines": [i, j]} for i in k for j in k]
+        return [{"n": 2, "engines": [i, j], "forget_always": True} for i in (0, 2, 3) for j in (0, 2, 3)]
     return [{"n": 3, "engines": [i, j, l]} for i in k for j in k for l in k]
 
 
@@ -478,11 +478,20 @@ OBLIGATIONS = [
         encoded=["openpectus.aggregator.aggregator_message_handlers:AggregatorMessageHandlers.handle_RegisterEngineMsg",
                  "openpectus.aggregator.aggregator:Aggregator.create_engine_id",
                  "openpectus.aggregator.aggregator:Aggregator.has_registered_engine_id"],
-        symbolic="per registration: secret string (<= 8 chars), engine_version string (<= 12 chars), ignore_version_error bit, connect / disconnect / forget event bits",
-        bounds={"quick": "2 registrations by engines from a catalogue of 4 name pairs (two of them colliding on the unchanged tree)",
-                "thorough": "3 registrations"},
+        symbolic="per registration: secret string (<= 7 chars), engine_version string (<= len(__version__)+1 chars), ignore_version_error bit, connect / disconnect / forget event bits",
+        bounds={"quick": "2 registrations by engines from a catalogue of 3 name pairs (two of them colliding on the unchanged tree); a disconnect always removes the engine data",
+                "thorough": "3 registrations, 4 name pairs, engine data may survive a disconnect"},
         assumptions=["fake dispatcher: has_connected_engine_id answers from the harness' connection map, maintained like AggregatorDispatcher._engine_id_channel_map",
                      "from_engine.register_engine_data replaced by a recorder that stores the EngineData (no database, no publisher task)",
                      "create_analysis_input.cache_clear stubbed", "RegisterEngineMsg built with model_construct (symbolic secret / version)",
                      "computer / uod names are concrete catalogue entries (urllib.quote is not executed on symbolic text)", "log statements removed at import"]),
 ]
+
+
+LEVEL = "model_checking"
+MANIFEST = {
+    "level": "model_checking",
+    "text": "The id format is extracted from the live Aggregator.create_engine_id by probing (separator image, per-code-point images for all 1 112 064 non-surrogate code points in both positions, prefix-code check, character-wise structure on solver-generated names); z3 then decides over strings of unbounded length whether two different non-empty (computer, uod) name pairs can have the same id (ambiguity of the concatenation of the two image languages; unsat of the over-approximated query = injectivity for all names). handle_RegisterEngineMsg is executed symbolically (CrossHair) with a fake dispatcher over sequences of 2 (quick) / 3 (thorough) registrations with symbolic secret / version strings and connect / disconnect events: a registration for a connected id never succeeds and never replaces the connected engine's data.",
+    "note": "Trusted: z3 (cross-checked by cvc5), CrossHair's str/bool models; the reduction of id injectivity to concatenation ambiguity relies on the table obligations of the same check. Registration part is bounded (sequence length, catalogue of 3-4 name pairs, recorder instead of the database-backed register_engine_data). Lone surrogates and empty names are outside the claim.",
+    "technique": "finite table from the live function + direct z3 string/regex query (unbounded) + symbolic execution of the real handler (CrossHair), witnesses replayed through the real create_engine_id with real RegisterEngineMsg objects",
+}
